@@ -585,7 +585,7 @@ func (vc *VC) enterLoop(fr *Frame, li *loopInfo, merged *State, phiEntry map[*ss
 			}
 			nm := vc.q.Fresh(name+"$loop", prev.Sort)
 			st.mem[name] = nm
-			if ls != nil && ls.FrameOld && strings.HasPrefix(string(prev.Sort), "(Array Int (Array Path") {
+			if ls != nil && ls.FrameOld && strings.HasPrefix(string(prev.Sort), "(Array Int ") && strings.HasPrefix(name, "M") {
 				// checked at every back edge: rows of objects that existed at function entry are untouched
 				a0 := vc.top.entry.alloc.S
 				vc.q.Raw(fmt.Sprintf("(assert (forall ((r Int)) (! (=> (< r %s) (= (select %s r) (select %s r))) :pattern ((select %s r)))))", a0, nm.S, prev.S, nm.S))
@@ -689,8 +689,13 @@ func (vc *VC) checkLoopBack(fr *Frame, li *loopInfo, est *State, predIdx int) {
 			continue
 		}
 		r := vc.q.Fresh("lf$r", SInt)
-		p := vc.q.Fresh("lf$p", SPath)
-		goal := Implies(Lt(r, vc.top.entry.alloc), Eq(Select(Select(cur, r), p), Select(Select(head, r), p)))
+		var goal Term
+		if strings.HasPrefix(string(cur.Sort), "(Array Int (Array Path") {
+			p := vc.q.Fresh("lf$p", SPath)
+			goal = Implies(Lt(r, vc.top.entry.alloc), Eq(Select(Select(cur, r), p), Select(Select(head, r), p)))
+		} else {
+			goal = Implies(Lt(r, vc.top.entry.alloc), Eq(Select(cur, r), Select(head, r)))
+		}
 		vc.addObl(fr, est, "loop-frame", fmt.Sprintf("loop%d/%s", li.ordinal, name), goal,
 			&Clause{Kind: "loop frame-old", Text: "objects that existed at function entry are not modified (" + name + ")", File: fr.con.File, Line: fr.con.Line}, token.NoPos)
 	}
